@@ -726,7 +726,7 @@ var (
 	utf8Lbls    = []string{"la.bel", "ü", "a b", "0start", "x-y", "q\"l", "b\\l"}
 	colonLbls   = []string{"a:b", ":", "x:"}
 	lblValues   = []string{"", "x", "val ue", "\\", "\"", "\n", "a\\nb", "ü€😀", "{}", "#", ",=", "x\\", "\\\\\"", "1", "-1", "+Inf", "0.5", "1e3", "é\"\\\n",
-		" lead", "trail ", "\t", "a\x00b", "} 1", "\",b=\""}
+		" lead", "trail ", "\t", "a\x00b", "} 1", "\",b=\"", "a]b[", "~\x7f|z{", "!$%&'()*+-./:;<>?@^_`"}
 	helps = []string{"", "help text", " lead", "trail ", "   ", " ", "\t", "with \\ and \n and \"", "tab\tin", "ü€", "\\n", "\\\\", "a\\", "# HELP x y", "x\x00y", "\"q\""}
 	floats = []uint64{
 		0, 0x8000000000000000, 0x3ff0000000000000, 0xbff0000000000000, 0x7ff0000000000000, 0xfff0000000000000,
